@@ -16,6 +16,7 @@
 //	                      and an excepted neighbour cookie.
 //	multi   (direct)      several cookies per request including duplicates of one name.
 //	long    (direct+wire) plaintexts up to 16 KiB (cookies beyond 4096 / 8192 bytes) issued and replayed.
+//	twokeys / conc        see conc.go (state shared between instances / between requests in flight).
 //	rawline (wire)        the handler writes a raw Set-Cookie line, also with attributes the cookie
 //	                      parser rejects: ciphertext only all the same.
 //
@@ -1202,7 +1203,10 @@ func tamperBase(e *ev.Env, c *ev.Case, thorough bool) {
 		e.Eval(1)
 		stat(e, "tamper_cases", 1)
 		stat(e, "tamper_"+tc.class, 1)
-		same := mayBeOriginal(tc.v)
+		// only alterations OF the issued text can "decode to the very same ciphertext"; a value
+		// sealed under another key or plain garbage has no original to fall back to
+		derived := tc.class == "substitution" || tc.class == "truncation" || tc.class == "extension"
+		same := mayBeOriginal(tc.v) && (derived || recognised)
 		if !recognised {
 			stat(e, "tamper_agnostic", 1)
 		}
@@ -1626,6 +1630,11 @@ func run(e *ev.Env) {
 	e.Cases("rawline", e.N(400, 20000), func(c *ev.Case) { rawline(e, c, -1) })
 
 	e.Cases("long", e.N(320, 12000), func(c *ev.Case) { longValue(e, c, 0) })
+
+	e.Cases("twokeys", e.N(320, 20000), func(c *ev.Case) { twoKeys(e, c) })
+
+	e.Cases("conc", e.N(96, 3000), func(c *ev.Case) { conc(e, c) })
+	concThresholds(e)
 
 	if e.Only == "" {
 		for _, name := range []string{"wire_ciphertext_only", "nonce_fresh", "roundtrip_ok_clean", "except_wire_identical", "except_request_identical",
